@@ -35,6 +35,7 @@ type Exec struct {
 	canonIDs bool
 	idBase   uint32
 	idKnown  bool
+	obsEnd, prevObsEnd time.Time // when the observation of the last / the previous operation was complete: an operation starts no earlier than the previous one's observation ended
 	nsent    int
 	lastTx   []vp.TxRec // transmissions of the last observation, in the order they are listed
 	// PAIRv1 driven against the PAIR machine: the constant hop header is checked here and left out of the trace
@@ -95,6 +96,12 @@ func obsShape(obs string) string {
 
 // observe waits for quiescence and collects what became observable
 func (e *Exec) observe() string {
+	r := e.observe0()
+	e.prevObsEnd, e.obsEnd = e.obsEnd, time.Now()
+	return r
+}
+
+func (e *Exec) observe0() string {
 	if !vp.Quiesce() {
 		e.broken = true
 		return "no-quiescence"
